@@ -135,9 +135,14 @@ fn tac(tag: &Tag, tokens: &mut Tokenizer) -> Result<Val, Error> {
 }
 
 fn doctype(name: &str, external: Option<ExternalId>, internal: Option<&str>) -> Val {
+    // literals are delivered without their quotes; a literal cannot contain its own quote mark
+    let quote = |s: StrSpan| match s.as_str().contains('"') {
+        true => format!("'{s}'"),
+        false => format!("\"{s}\""),
+    };
     let external = external.map(|ext| match ext {
-        ExternalId::System(system) => format!("SYSTEM {system}"),
-        ExternalId::Public(pub_id, system) => format!("PUBLIC {pub_id} {system}"),
+        ExternalId::System(system) => format!("SYSTEM {}", quote(system)),
+        ExternalId::Public(pub_id, system) => format!("PUBLIC {} {}", quote(pub_id), quote(system)),
     });
     make_obj([
         ("name", Some(name.to_owned())),
@@ -168,7 +173,8 @@ fn parse(tk: Token, tokens: &mut Tokenizer) -> Result<Val, Error> {
             make_obj([
                 ("version", Some(ss_val(version))),
                 ("encoding", encoding.map(ss_val)),
-                ("standalone", standalone.map(|b| b.into())),
+                // attribute values must be strings to be written back by `toxml`
+                ("standalone", standalone.map(|b| if b { "yes" } else { "no" }.to_string().into())),
             ]),
         ),
         Token::ProcessingInstruction {
